@@ -52,7 +52,9 @@ CONSTANTS NVars,    \* number of program variables
           IPos,
           Ops,      \* binary operators between two objects
           IOps,     \* binary operators between an object and an int literal (forward and reflected)
-          Acts      \* enabled action families
+          Acts,     \* enabled action families
+          DetOnly   \* TRUE: only calls with exactly one admitted outcome (for `-simulate`: a behaviour then
+                    \* determines what the real call must do)
 
 VARIABLES heap,     \* [Vars -> object state | Unbound]
           res       \* what the last action did: [act, tgt, out, op, x, y, w]
@@ -78,6 +80,7 @@ R(a, t, o, op, x, y, w) == [act |-> a, tgt |-> t, out |-> o, op |-> op, x |-> x,
 \* r := the new object holding one admitted outcome (e: the call raises)
 Produce(act, r, outs, e, op, x, y, w) ==
     /\ ~outs.any
+    /\ DetOnly => Cardinality(outs.outs) = 1
     /\ \E o \in outs.outs :
           /\ (o.k = "err") = e
           /\ o.k = "ok" => o.w <= WMax
@@ -86,16 +89,26 @@ Produce(act, r, outs, e, op, x, y, w) ==
 
 \* the object of t changes as one admitted <<outcome, next state>> pair says
 Mutate(act, t, pairs, e) ==
-    \E p \in pairs :
+    /\ DetOnly => Cardinality(pairs) = 1
+    /\ \E p \in pairs :
           /\ (p[1].k = "err") = e
           /\ res'  = R(act, IF p[1].k = "err" THEN 0 ELSE t, p[1], "", 0, 0, 0)
           /\ heap' = [heap EXCEPT ![t] = p[2]]
 
 ---------------------------------------------------------------------------
+\* argument domains relative to the width w of the object concerned: every valid argument, and a few
+\* invalid ones of each kind (so that raising calls do not swamp the simulated behaviours)
+IdxFor(w)   == (-1)..w
+PairsFor(w) == {<<lo, hi>> \in (0..(w - 1)) \X (1..w) : lo < hi}
+               \cup {<<0, 0>>, <<0, w + 1>>, <<-1, w>>, <<w, w>>, <<w, w + 1>>, <<w - 1, 0>>}
+IntsFor(w)  == {i \in Ints : i <= 2^w}
+W(v)        == heap[v].w
+
+---------------------------------------------------------------------------
 \* producers
 
 New(r, w, i, e) ==                                  \* r = Bits(w, i)
-    /\ "new" \in Acts
+    /\ "new" \in Acts /\ i \in IntsFor(w)
     /\ \E p \in O!NewOuts(w, Ix(i), FALSE) :
           /\ (p[1].k = "err") = e
           /\ res'  = R("new", IF e THEN 0 ELSE r, p[1], "", 0, 0, 0)
@@ -117,16 +130,16 @@ Bin(op, r, a, b, e) ==                              \* r = a op b
     /\ Produce("bin", r, O!BinOuts(op, FALSE, Opd(a), Opd(b)), e, op, Nat0(heap[a]), Nat0(heap[b]), heap[a].w)
 
 BinInt(op, refl, r, a, i, e) ==                     \* r = a op i   |   r = i op a
-    /\ "binint" \in Acts /\ Bound(a)
+    /\ "binint" \in Acts /\ Bound(a) /\ i \in IntsFor(W(a))
     /\ Produce("binint", r, O!BinOuts(op, refl, Opd(a), Ix(i)), e, op,
                IF refl THEN i ELSE Nat0(heap[a]), IF refl THEN Nat0(heap[a]) ELSE i, heap[a].w)
 
 GetBit(r, a, i, e) ==                               \* r = a[i]
-    /\ "getbit" \in Acts /\ Bound(a)
+    /\ "getbit" \in Acts /\ Bound(a) /\ i \in IdxFor(W(a))
     /\ Produce("getbit", r, O!GetBitOuts(Opd(a), i), e, "", 0, 0, 0)
 
 GetSlice(r, a, lo, hi, e) ==                        \* r = a[lo:hi]
-    /\ "getslice" \in Acts /\ Bound(a)
+    /\ "getslice" \in Acts /\ Bound(a) /\ <<lo, hi>> \in PairsFor(W(a))
     /\ Produce("getslice", r, O!GetSliceOuts(Opd(a), <<lo>>, <<hi>>, O!None), e, "", 0, 0, 0)
 
 Concat(r, a, b, e) ==                               \* r = concat(a, b)
@@ -144,26 +157,24 @@ Ext(op, r, a, n, e) ==                              \* r = zext(a, n) | sext(a, 
 
 Assign(t, a, e)      == "assign" \in Acts /\ Bound(t) /\ Bound(a)
                         /\ Mutate("assign", t, O!AssignOuts(heap[t], Opd(a)), e)            \* t @= a
-AssignInt(t, i, e)   == "assign" \in Acts /\ Bound(t)
+AssignInt(t, i, e)   == "assign" \in Acts /\ Bound(t) /\ i \in IntsFor(W(t))
                         /\ Mutate("assign", t, O!AssignOuts(heap[t], Ix(i)), e)             \* t @= i
 NbAssign(t, a, e)    == "nbassign" \in Acts /\ Bound(t) /\ Bound(a)
                         /\ Mutate("nbassign", t, O!NbAssignOuts(heap[t], Opd(a)), e)        \* t <<= a
-NbAssignInt(t, i, e) == "nbassign" \in Acts /\ Bound(t)
+NbAssignInt(t, i, e) == "nbassign" \in Acts /\ Bound(t) /\ i \in IntsFor(W(t))
                         /\ Mutate("nbassign", t, O!NbAssignOuts(heap[t], Ix(i)), e)         \* t <<= i
 Flip(t, e)           == "flip" \in Acts /\ Bound(t)
                         /\ Mutate("flip", t, O!FlipOuts(heap[t]), e)                        \* t._flip()
-SetBit(t, i, a, e)   == "setbit" \in Acts /\ Bound(t) /\ Bound(a)
+SetBit(t, i, a, e)   == "setbit" \in Acts /\ Bound(t) /\ Bound(a) /\ i \in IdxFor(W(t))
                         /\ Mutate("setbit", t, O!SetBitOuts(heap[t], i, Opd(a)), e)         \* t[i] = a
-SetBitInt(t, i, v, e) == "setbit" \in Acts /\ Bound(t)
+SetBitInt(t, i, v, e) == "setbit" \in Acts /\ Bound(t) /\ i \in IdxFor(W(t))
                         /\ Mutate("setbit", t, O!SetBitOuts(heap[t], i, Ix(v)), e)          \* t[i] = v
 SetSlice(t, lo, hi, a, e) ==
-                        "setslice" \in Acts /\ Bound(t) /\ Bound(a)
+                        "setslice" \in Acts /\ Bound(t) /\ Bound(a) /\ <<lo, hi>> \in PairsFor(W(t))
                         /\ Mutate("setslice", t, O!SetSliceOuts(heap[t], <<lo>>, <<hi>>, O!None, Opd(a)), e)
 
 ---------------------------------------------------------------------------
 
-Idxs   == (-1)..WMax
-Bounds == 0..(WMax + 1)
 UnOps  == {"invert", "clone", "deepcopy"}
 ExtOps == {"zext", "sext", "trunc"}
 
@@ -176,8 +187,8 @@ Next == \E e \in BOOLEAN :
         \/ \E op \in UnOps, r \in Vars, a \in Vars : Un(op, r, a, e)
         \/ \E op \in Ops, r \in Vars, a \in Vars, b \in Vars : Bin(op, r, a, b, e)
         \/ \E op \in IOps, refl \in BOOLEAN, r \in Vars, a \in Vars, i \in Ints : BinInt(op, refl, r, a, i, e)
-        \/ \E r \in Vars, a \in Vars, i \in Idxs : GetBit(r, a, i, e)
-        \/ \E r \in Vars, a \in Vars, lo \in Bounds, hi \in Bounds : GetSlice(r, a, lo, hi, e)
+        \/ \E r \in Vars, a \in Vars, i \in (-1)..WMax : GetBit(r, a, i, e)
+        \/ \E r \in Vars, a \in Vars, lo \in (-1)..WMax, hi \in 0..(WMax + 1) : GetSlice(r, a, lo, hi, e)
         \/ \E r \in Vars, a \in Vars, b \in Vars : Concat(r, a, b, e)
         \/ \E op \in ExtOps, r \in Vars, a \in Vars, n \in 1..WMax : Ext(op, r, a, n, e)
         \/ \E t \in Vars, a \in Vars : Assign(t, a, e)
@@ -185,9 +196,9 @@ Next == \E e \in BOOLEAN :
         \/ \E t \in Vars, a \in Vars : NbAssign(t, a, e)
         \/ \E t \in Vars, i \in Ints : NbAssignInt(t, i, e)
         \/ \E t \in Vars : Flip(t, e)
-        \/ \E t \in Vars, i \in Idxs, a \in Vars : SetBit(t, i, a, e)
-        \/ \E t \in Vars, i \in Idxs, v \in Ints : SetBitInt(t, i, v, e)
-        \/ \E t \in Vars, lo \in Bounds, hi \in Bounds, a \in Vars : SetSlice(t, lo, hi, a, e)
+        \/ \E t \in Vars, i \in (-1)..WMax, a \in Vars : SetBit(t, i, a, e)
+        \/ \E t \in Vars, i \in (-1)..WMax, v \in (-1)..2 : SetBitInt(t, i, v, e)
+        \/ \E t \in Vars, lo \in (-1)..WMax, hi \in 0..(WMax + 1), a \in Vars : SetSlice(t, lo, hi, a, e)
 
 Spec == Init /\ [][Next]_vars
 
